@@ -217,6 +217,8 @@ type c03Keeper struct {
 	changed []string
 	seen    map[string]bool
 	calls   int
+	redo    []c03Redo // the decoder calls of the op, repeated in stage `twin` (c03_wb2.go)
+	argChanged bool   // a Marshal call changed its argument (c03_wb2.go)
 	salt    int // which of the fixed decoys also goes through MarshalGzipped (alternates with the case)
 }
 
@@ -271,6 +273,7 @@ func (k *c03Keeper) verify(stage string) {
 // its input alone and give the same value both times.  Returns the first result.
 func (k *c03Keeper) decode(name string, data []byte, f func([]byte) (mvt.Layers, error)) (mvt.Layers, error) {
 	in := k.input(data)
+	k.redo = append(k.redo, c03Redo{name, append([]byte(nil), data...), f})
 	l, err := f(in)
 	k.keepLayers(name, l, err)
 	if !bytes.Equal(in, data) {
@@ -300,6 +303,7 @@ func (k *c03Keeper) disturb(ls []c03Layer) {
 		k.salt += len(e.b)
 	}
 	k.verify("return") // nothing has happened yet except the op's own calls
+	k.twins()           // the parts of one decoded value are independent of each other
 	var own *c03Decoy
 	if ls != nil {
 		own = c03DecoyOf(c03Perturb(ls))
